@@ -682,3 +682,69 @@ def class_lmis_symmetric(ctx, only=None):
                    "entry (i, j) equals entry (j, i) on three samples" if not bad else
                    "entry %s differs from its mirror: the solver is given entry equalities whose multipliers the certificate drops" % (bad[0],), loc(hook, hook))
     return n
+
+
+def r_hook_tables(ctx, only=None):
+    """C17 on the unrolled hooks: after the hook of a family has run on its model (three samples, a stationary one where the family has one), every
+    table of multipliers it stored has one column per sample of a recorded list of the function -- all samples, the stationary samples, the samples
+    of the adjoint -- and one row per sample of such a list (a single row for a condition on single samples); and no Constraint object sits in two
+    cells or is emitted twice (one object has one name and one multiplier: two cells sharing it show the name and the value written last)."""
+    repo = ctx.repo
+    spec = formula.load_spec()
+    fams = sorted([c for c in repo.all_classes() if c.name in spec.CLASSES and c.find_method(K.HOOK) is not None and (only is None or c.name in only)],
+                  key=lambda c: c.name)
+    n_tables = 0
+    for cls in fams:
+        entries = spec.CLASSES[cls.name]
+        hook = cls.find_method(K.HOOK)
+        bad = None
+        ran = 0
+        try:
+            for cfg in family_configs(repo, cls, entries):
+                label = ", ".join("%s %s" % (k0.replace("__stationary", "stationary sample"),
+                                             {True: "finite / declared", False: "infinite / not declared", None: "absent", "given": "given"}[v0]) for k0, v0 in sorted(cfg.items())) or "default"
+                try:
+                    _a, _b, _c, _d, me = run_family(repo, cls, spec, entries, cfg)
+                except ProgramRaise:
+                    continue          # reported by R-HOOKPROG under C03 / C04
+                ran += 1
+                cons = [c for c in me.attrs["list_of_class_constraints"] if isinstance(c, SymObj)]
+                twice = [c for k, c in enumerate(cons) if any(c is d for d in cons[:k])]
+                if twice:
+                    bad = "[%s] one Constraint object is emitted %d times (`%s`): its cells share one name and one multiplier" % (
+                        label, 1 + sum(1 for d in cons if d is twice[0]) - 1, twice[0].attrs.get("cons"))
+                    break
+                sizes = {len(me.attrs["list_of_points"]): "all samples", len(me.attrs["list_of_stationary_points"]): "the stationary samples"}
+                if isinstance(me.attrs.get("T"), SymObj):
+                    sizes[len(me.attrs["T"].attrs.get("list_of_points", []))] = "the samples of the adjoint"
+                tabs = me.attrs.get("tables_of_constraints")
+                if not isinstance(tabs, dict):
+                    raise AnalysisError("tables_of_constraints of %s is not a dict" % cls.name)
+                for tname, t in tabs.items():
+                    for tt in (t if isinstance(t, list) else [t]):
+                        n_tables += 1
+                        data = tt.attrs.get("data") if isinstance(tt, SymObj) and tt.kind == "DataFrame" else None
+                        if not (isinstance(data, list) and all(isinstance(r0, list) for r0 in data) and len({len(r0) for r0 in data}) <= 1):
+                            raise AnalysisError("table `%s` of %s: data outside the fragment" % (tname, cls.name))
+                        nr, nc = len(data), (len(data[0]) if data else 0)
+                        if nc not in sizes or (nr != 1 and nr not in sizes):
+                            bad = "[%s] the table `%s` has %d row(s) and %d column(s); the function has %s" % (
+                                label, tname, nr, nc, ", ".join("%d = %s" % (k0, v0) for k0, v0 in sorted(sizes.items())))
+                            break
+                        cells = [x for r0 in data for x in r0 if isinstance(x, SymObj)]
+                        if any(x is y for k, x in enumerate(cells) for y in cells[:k]):
+                            bad = "[%s] two cells of the table `%s` hold the same Constraint object" % (label, tname)
+                            break
+                    if bad:
+                        break
+                if bad:
+                    break
+        except (AnalysisError, SortError) as ex:
+            ctx.notes.append("R-HOOKTABLE %s skipped: %s" % (cls.name, ex))
+            continue
+        if ran:
+            ctx.ob("R-HOOKTABLE", "%s.%s::tables of multipliers (unrolled)" % (cls.name, K.HOOK), bad is None,
+                   "every table has one column (and row) per sample of a recorded list; every cell has a Constraint object of its own" if bad is None else bad,
+                   loc(hook, hook))
+    ctx.count("tables of multipliers examined", n_tables)
+    return n_tables
